@@ -55,6 +55,12 @@ var plans = map[string]PropPlan{
 		QuickSecs: 90, ThoroughSecs: 900,
 		Assumptions: schedAssume,
 	},
+	"C12": {
+		Quick:     []Plan{{Scenario: "closed.api", PB: 1, DB: 3, NoIter: true}},
+		Thorough:  []Plan{{Scenario: "closed.api", PB: 2, DB: 3, NoIter: true}},
+		QuickSecs: 90, ThoroughSecs: 900,
+		Assumptions: append([]string{"which API calls are made on the closed connection is an explored environment choice (every single call and every ordered pair of the 32 call shapes)", "every actor is run to quiescence before and after each call, so a call that does not return is an exact deadlock verdict"}, schedAssume...),
+	},
 	"C16": {
 		Quick: []Plan{{Scenario: "adapters", Kind: "seq"}}, Thorough: []Plan{{Scenario: "adapters", Kind: "seq"}},
 		QuickSecs: 90, ThoroughSecs: 1200,
